@@ -260,8 +260,8 @@ def wl_strings(ctx, rng, i):
 
 
 WORKLOADS = [
-    Workload("datetimes", wl_datetimes, quick=500, thorough=16000),
-    Workload("strings", wl_strings, quick=150, thorough=4000),
+    Workload("datetimes", wl_datetimes, quick=500, thorough=40000),
+    Workload("strings", wl_strings, quick=150, thorough=12000),
     __import__("stixmon.ambient", fromlist=["workload"]).workload("C15"),
 ]
 
